@@ -21,8 +21,20 @@ fn raw_cif(p: &PDB) -> Vec<u8> {
 /// diagnostic triggers for PDB text (each produces a known diagnostic class)
 fn mutate_pdb(rng: &mut Rng, text: &str) -> (String, &'static str) {
     let mut lines: Vec<String> = text.lines().map(str::to_string).collect();
-    let k = rng.below(19);
+    let k = rng.below(20);
     let label = match k {
+        19 => {
+            // two files behind each other: atoms, a MASTER record with the right count, END, and the same atoms once more.
+            // What the reader makes of the records after MASTER must not depend on the level.
+            let end = lines.iter().position(|l| l.starts_with("ENDMDL")).unwrap_or(lines.len());
+            let atoms: Vec<String> = lines[..end].iter().filter(|l| l.starts_with("ATOM") || l.starts_with("HETATM") || l.starts_with("TER")).cloned().collect();
+            let n_atoms = atoms.iter().filter(|l| !l.starts_with("TER")).count();
+            let mut t = atoms.join("\n");
+            t.push_str(&format!("\nMASTER        0    0    0    0    0    0    0    0{n_atoms:5}    0    0    0\nEND\n"));
+            t.push_str(&atoms.join("\n"));
+            t.push_str("\nEND\n");
+            return (t, "master-mid-file");
+        }
         17 | 18 => {
             // SEQRES lists a residue that has no coordinates: what the reader makes of it must not depend on the level
             let names = ["MET", "GLY", "ALA", "SER", "VAL", "LEU"];
